@@ -51,6 +51,14 @@ type hsCase struct {
 	NativeClear bool     `json:"native_clear"`
 	NativeHash  bool     `json:"native_hash"`
 	Sha2Clear   bool     `json:"sha2_clear"`
+	// set in replay files: the concrete instantiation in which the deviation was observed
+	Concrete *hsConcrete `json:"concrete,omitempty"`
+}
+
+type hsConcrete struct {
+	Pw    map[string]string `json:"pw"`
+	Salts map[string]string `json:"salts"` // hex
+	Resp  string            `json:"resp"`  // hex
 }
 
 // ---- independent instantiation of the abstract functions (trusted base)
@@ -303,10 +311,23 @@ func TestVerifAuthCheck(t *testing.T) {
 		}
 		res := &verifkit.Result{Case: i}
 		cls := fmt.Sprintf("%s resp=%s hash-credentials=%s", pluginClass(c.Plugin), respClass(&c), hashCreds(c.Stored))
-		for k := 0; k < worlds; k++ {
+		var devWorld *hsConcrete
+		nw := worlds
+		if c.Concrete != nil {
+			nw = 1
+		}
+		for k := 0; k < nw; k++ {
 			w := newWorld(rng, k+i)
-			salt := w.salts[c.Salt]
 			resp := w.response(&c.Resp, rng)
+			if c.Concrete != nil {
+				w = &hsWorld{pw: c.Concrete.Pw, salts: map[string][]byte{}}
+				for name, h := range c.Concrete.Salts {
+					w.salts[name], _ = hex.DecodeString(h)
+				}
+				resp, _ = hex.DecodeString(c.Concrete.Resp)
+			}
+			salt := w.salts[c.Salt]
+			ndevBefore := len(res.Devs)
 			// configuration: user u1 with the case's credentials in order, user u2 with the other password
 			ns := &models.Namespace{Name: "ns1"}
 			var texts []string
@@ -405,6 +426,12 @@ func TestVerifAuthCheck(t *testing.T) {
 					res.Dev(fmt.Sprintf("C30 mysql.CheckHashPassword=%v, reference %v response %s", ok, want, lc), "response %x salt %x", resp, salt)
 				}
 			}
+			if devWorld == nil && len(res.Devs) > ndevBefore {
+				devWorld = &hsConcrete{Pw: w.pw, Salts: map[string]string{}, Resp: hex.EncodeToString(resp)}
+				for name, b := range w.salts {
+					devWorld.Salts[name] = hex.EncodeToString(b)
+				}
+			}
 		}
 		if len(res.Devs) > 0 {
 			var keep []verifkit.Dev
@@ -421,7 +448,8 @@ func TestVerifAuthCheck(t *testing.T) {
 			}
 			if len(keep) > 0 {
 				res.Devs = keep
-				res.Obs = raw
+				c.Concrete = devWorld
+				res.Obs = c
 				out.Write(res)
 			}
 		}
